@@ -107,6 +107,7 @@ def run_once(
     keep=("INIT", "EDGE", "TRACE", "CASE", "WIT"),
     deadlock=False,
     dfid=None,
+    allow_empty=False,
 ):
     """Run TLC; raise TLCError on machinery failure; return a TLCResult otherwise."""
     meta = scratch("cinco-tlc-")
@@ -220,7 +221,7 @@ def run_once(
         err = TLCError("TLC failed (rc=%s): %s\n%s\n(full output: %s)" % (proc.returncode, res.cmd, tail, dump))
         err.internal = "TLC threw an unexpected exception" in text or "unable to fingerprint" in text
         raise err
-    if simulate is None and res.generated == 0 and res.violation is None:
+    if simulate is None and res.generated == 0 and res.violation is None and not allow_empty:
         raise TLCError("TLC reported no states: %s\n%s" % (res.cmd, text[-2000:]))
     return res
 
